@@ -83,6 +83,9 @@ theorem parseLengthPrefixed_append (b' tail : Bytes) (f : Frame) (rest' : Bytes)
         cases h
         rfl
       · simp only [hs, if_false, Bool.false_eq_true] at h ⊢
+        by_cases hbig : size ≥ 2 ^ 63
+        · simp only [hbig, if_true] at h; cases h
+        simp only [hbig, if_false] at h ⊢
         cases hd : decFrame (List.take size r') with
         | error e => rw [hd] at h; cases h
         | ok fr =>
@@ -120,9 +123,11 @@ theorem parseLengthPrefixed_length_lt (b : Bytes) (f : Frame) (rest : Bytes)
         · cases h
         · split at h
           · cases h
-          · cases h
-            simp only [List.length_drop]
-            omega
+          · split at h
+            · cases h
+            · cases h
+              simp only [List.length_drop]
+              omega
 
 /-! ## `restFrames` -/
 
@@ -819,7 +824,7 @@ theorem decFrame_short_rows (b : Bytes) (hl : b.length ≤ 2) (f : Frame) (h : d
       · rename_i p
         have hp : p = [] := hQ 1 p rfl
         subst hp
-        have : decRow (depthLimit - 2) [] = .ok Row.empty := rfl
+        have : decRow (depthLimit - 1) [] = .ok Row.empty := rfl
         rw [this] at hs
         simp only [pure, Except.pure] at hs
         cases hs
